@@ -668,6 +668,77 @@ def hash_twin_cases(ctx):
     return n
 
 
+def near_time_twin_cases(ctx):
+    """Messages whose times differ by less than anything a person would care about - 0.1 + 0.2 against 0.3, one ulp, the
+    smallest denormal - are different values: they compare unequal (equality is "every attribute equal"), and whatever ==
+    says, frozen messages that compare equal hash equal and find each other in a dictionary and a set."""
+    n = 0
+    pairs = [(0.1 + 0.2, 0.3), (1.0, 1.0 + 2.0 ** -52), (0.0, 5e-324), (0, 1e-10), (1e9, 1e9 + 2.0 ** -23), (0.5, 0.5 + 1e-12),
+             (100, 100 + 1e-13), (-1e-9, 0), (3, 3.0000000005)]
+    makers = [('message', lambda t: Message('note_on', note=1, time=t)), ('sysex', lambda t: Message('sysex', data=(1,), time=t)),
+              ('meta', lambda t: MetaMessage('set_tempo', tempo=7, time=t)), ('unknown_meta', lambda t: UnknownMetaMessage(0x60, (1,), time=t))]
+    for what, mk in makers:
+        for a, b in pairs:
+            for first, second in ((a, b), (b, a)):
+                case = {'kind': 'near-time-twins', 'what': what, 'first': repr(first), 'second': repr(second)}
+                try:
+                    m1, m2 = mk(first), mk(second)
+                    f1, f2 = freeze_message(m1), freeze_message(m2)
+                    ctx.check('copy() == original, same class, new object', (m1 == m2) is False and (m1 != m2) is True and (f1 == f2) is False,
+                              'near-times-compare-equal', case, lambda: {'m1==m2': m1 == m2, 'f1==f2': f1 == f2})
+                    if f1 == f2:
+                        d = {f1: 1}
+                        ctx.check('equal frozen => equal hash and dict key', hash(f1) == hash(f2) and f2 in d and len({f1, f2}) == 1,
+                                  'equal-frozen-hash-differently', case, lambda: {'hashes': [hash(f1), hash(f2)]})
+                    else:
+                        ctx.count('equal frozen => equal hash and dict key')
+                    ctx.check('thaw(freeze(m)) == m', thaw_message(f1) == m1 and repr(thaw_message(f1).time) == repr(first), 'near-times-thaw', case, None)
+                except Exception as exc:
+                    ctx.fail('no exception', f'near-times:{type(exc).__name__}', case, f'{type(exc).__name__}: {exc}')
+                n += 1
+    return n
+
+
+def decoded_meta_cases(ctx):
+    """Meta messages as a decoder hands them out - every type byte 0..127, known or not, from MetaMessage.from_bytes and
+    from a track of a file: copy, freeze and thaw give the matching class (thaw and copy: the class of the message itself)."""
+    import io
+    import mido
+    from ..ref import smf
+    n = 0
+    for tb in range(128):
+        if tb == 0x2F:
+            continue
+        for payload in ((), (65, 66), tuple(range(5))):
+            raw = [0xFF, tb, len(payload)] + list(payload)
+            born = []
+            try:
+                born.append(('from_bytes', MetaMessage.from_bytes(raw)))
+            except Exception:
+                pass                                   # payload not valid for this known type: nothing to judge
+            try:
+                b, _ = smf.encode_file(1, 96, [[('meta', 3, tb, list(payload)), ('meta', 0, 0x2F, [])]])
+                born.append(('file', mido.MidiFile(file=io.BytesIO(b)).tracks[0][0]))
+            except Exception:
+                pass
+            for how, m in born:
+                case = {'kind': 'decoded-meta', 'type_byte': tb, 'payload': list(payload), 'born': how}
+                try:
+                    c = m.copy()
+                    ctx.check('copy() == original, same class, new object', c == m and c is not m and type(c) is type(m),
+                              'decoded-meta-copy', case, lambda: {'copy': type(c).__name__, 'original': type(m).__name__})
+                    f = freeze_message(m)
+                    t = thaw_message(f)
+                    ctx.check('thaw(freeze(m)) == m', t == m and type(t) is type(m) and vars(t) == vars(m), 'decoded-meta-thaw-class', case,
+                              lambda: {'thawed': type(t).__name__, 'original': type(m).__name__, 'vars': repr(vars(t))[:120]})
+                    ctx.check('freeze gives the frozen class, equal', f == m and hash(f) == hash(freeze_message(c)) and isinstance(f, mido.frozen.Frozen),
+                              'decoded-meta-frozen', case, lambda: type(f).__name__)
+                except Exception as exc:
+                    ctx.fail('no exception', f'decoded-meta:{type(exc).__name__}', case, f'{type(exc).__name__}: {exc}')
+                n += 1
+    return n
+
+
 def prefix_twin_cases(ctx):
     """Payloads of which one is the beginning of the other - (), (1, 2), (1, 2, 3) - make different messages: unequal as
     they are, unequal frozen, two dictionary keys; and a payload equals only what a tuple equals."""
@@ -750,6 +821,9 @@ def run(ctx):
     if ctx.shard == 1 % ctx.nshards:
         n += hash_twin_cases(ctx)
         n += prefix_twin_cases(ctx)
+        n += near_time_twin_cases(ctx)
+    if ctx.shard == 2 % ctx.nshards:
+        n += decoded_meta_cases(ctx)
     if ctx.shard == 3 % ctx.nshards:
         n += respec_case(ctx)
     if os.environ.get('VERIF_ENVMODE', 'default') in ('default', 'c-locale'):
